@@ -379,7 +379,18 @@ RenOps ==
    [a |-> "BuildFromString", s |-> 1, r |-> "r2", d |-> [x \in MetU |-> IF x = "m1" THEN -1 ELSE IF x = "m5" THEN 2 ELSE 0], arrow |-> "both", spell |-> 0],
    [a |-> "RenameReaction", s |-> 1, r |-> "r2", new |-> "r4"],
    [a |-> "Query", s |-> 1]}
+\* failing multi-step operations inside a context: a user variable carries the name reaction r4 needs, so
+\* add_reactions is rejected by the solver part-way (after the reactions were put into the list) -- leaving the
+\* context must still restore everything
+FailOps ==
+  {[a |-> "AddReactions", s |-> 1, shape |-> 0, specs |-> <<Spec("DM_m1", St1("m1", -1, "m1", -1), 0, 5, RuleNone),
+                                                             Spec("r4", St1("m1", -1, "m4", 1), -5, 5, G("g4"))>>],
+   [a |-> "AddReactions", s |-> 1, shape |-> 1, specs |-> <<Spec("r4", St1("m2", -1, "m4", 2), 0, 5, RuleNone)>>],
+   [a |-> "SetBounds", s |-> 1, r |-> "r1", lo |-> -5, hi |-> 5],
+   [a |-> "RemoveReactions", s |-> 1, rs |-> <<"r2">>, orphans |-> FALSE, form |-> 0],
+   [a |-> "Enter", s |-> 1], [a |-> "Exit", s |-> 1]}
 FullOps ==
+  IF FullSet = "fail" THEN FailOps ELSE
   IF FullSet = "ren" THEN RenOps ELSE
   IF FullSet \in {"objp", "objc"} THEN ObjOps ELSE
   IF FullSet = "mid" THEN
@@ -445,6 +456,7 @@ FullPrefix == IF FullSet = "copy" THEN SeedOps(2, "glpk") \o <<[a |-> "Enter", s
                                                              [a |-> "Annotate", s |-> 1, x |-> "g1", v |-> 1, via |-> 2],
                                                              [a |-> "RoundTrip", s |-> 1, fmt |-> "sbml"]>> ELSE
               IF FullSet \in {"analyze", "ko", "det0", "ren"} THEN SeedOps(1, "glpk") ELSE
+              IF FullSet = "fail" THEN SeedOps(1, "glpk") \o <<[a |-> "AddUserVar", s |-> 1, name |-> "uvr4"], [a |-> "Enter", s |-> 1]>> ELSE
               IF FullSet = "objp" THEN SeedOps(1, "glpk") \o <<[a |-> "Enter", s |-> 1], [a |-> "Helper", s |-> 1, kind |-> "add_pfba"]>> ELSE
               IF FullSet = "objc" THEN SeedOps(1, "glpk") \o <<[a |-> "Enter", s |-> 1], [a |-> "Helper", s |-> 1, kind |-> "custom_objective"]>>
               ELSE SeedOps(1, "glpk") \o <<[a |-> "Enter", s |-> 1]>>
